@@ -87,6 +87,7 @@ type Interceptor struct {
 	// like any other call (default false: they are logged with Bg=true only).
 	FaultBackground bool
 	last            time.Time
+	inflight        int
 }
 
 // NewInterceptor returns an enabled interceptor with no fault.
@@ -107,6 +108,7 @@ func (ic *Interceptor) Reset() {
 	ic.fault, ic.crash = nil, nil
 	ic.faultErr = ErrInjected
 	ic.faultHit, ic.crashHit, ic.crashSeq = -1, -1, -1
+	// inflight is deliberately kept: calls in flight across a Reset still end with After
 }
 
 // Enable switches logging/injection on or off (off: wrappers pass through).
@@ -188,8 +190,9 @@ func (ic *Interceptor) WaitQuiet(quiet, max time.Duration) bool {
 	for {
 		ic.mu.Lock()
 		idle := time.Since(ic.last)
+		busy := ic.inflight
 		ic.mu.Unlock()
-		if idle >= quiet {
+		if idle >= quiet && busy == 0 {
 			return true
 		}
 		if time.Now().After(deadline) {
@@ -262,6 +265,7 @@ func (ic *Interceptor) Before(party, method, target, node, arg string) (int, err
 			return c.Seq, ErrCrashed
 		}
 		ic.log = append(ic.log, c)
+		ic.inflight++
 		ic.mu.Unlock()
 		return c.Seq, nil
 	}
@@ -293,6 +297,7 @@ func (ic *Interceptor) Before(party, method, target, node, arg string) (int, err
 		return c.Seq, err
 	}
 	ic.log = append(ic.log, c)
+	ic.inflight++
 	probe, gate := ic.Probe, ic.Gate
 	ic.mu.Unlock()
 	if probe != nil {
@@ -306,11 +311,15 @@ func (ic *Interceptor) Before(party, method, target, node, arg string) (int, err
 
 // After records the outcome of an executed call.
 func (ic *Interceptor) After(idx int, err error) {
-	if idx < 0 || err == nil {
+	if idx < 0 {
 		return
 	}
 	ic.mu.Lock()
-	if idx < len(ic.log) {
+	if ic.inflight > 0 {
+		ic.inflight--
+	}
+	ic.last = time.Now()
+	if err != nil && idx < len(ic.log) {
 		ic.log[idx].Err = true
 		ic.log[idx].ErrText = err.Error()
 	}
